@@ -17,7 +17,7 @@ Import ListNotations.
 Open Scope Z_scope.
 
 Definition key := list cell.
-Inductive pval := VNone | VInt (z : Z).
+Inductive pval := VNone | VInt (z : Z) | VList (tuple : bool) (l : list Z).     (* a list / tuple valued scalar: carried opaquely, never spread over rows *)
 Inductive expv := EPast | EFuture | ENone.            (* expiry cell: a past date, a future date, None *)
 Inductive input := Scalar (v : pval) | Table (rows : list (key * pval)).
 Record arg := mkArg { a_in : input; a_def : option pval }.      (* a_def = Some d: named in defaults with value d *)
@@ -91,7 +91,11 @@ Section Eval.
 End Eval.
 
 (* the function the correspondence lifts: digits of the arguments, None = 9 *)
-Definition digit (v : pval) : Z := match v with VNone => 9 | VInt z => z end.
+Definition digit (v : pval) : Z :=
+  match v with
+  | VNone => 9 | VInt z => z
+  | VList b l => 20 + 3 * Z.of_nat (List.length l) + fold_right Z.add 0 l + (if b then 1 else 0)
+  end.
 Fixpoint fcode (l : list pval) : Z := match l with [] => 0 | v :: r => digit v + 10 * fcode r end.
 (* a code that is 3 mod 7 stands for a None result *)
 Definition fval (z : Z) : pval := if z mod 7 =? 3 then VNone else VInt z.
